@@ -42,7 +42,12 @@ func VH_C14_PeiToString() {
 }
 
 func VH_C14_RequestedNssaiToModels() {
-	n := c14n()
+	// every split of the contents into entries of the five legal lengths is a path: 0..12 octets quick, 0..18 thorough
+	// (0..24 took 62 000 paths and ran into the 2400 s budget of the thorough tier)
+	n := vrt.Choose("n", 0, 12)
+	if vrt.Thorough() {
+		n = vrt.Choose("n2", 0, 18)
+	}
 	nssai := &nasType.RequestedNSSAI{Iei: 0x2f, Len: uint8(n), Buffer: vrt.Bytes("b", n)}
 	_, err := RequestedNssaiToModels(nssai)
 	_ = err
